@@ -29,9 +29,8 @@ for prop in sorted(os.listdir(root)):
             continue
         patch = os.path.join(d, "patch_ported.diff") if os.path.exists(os.path.join(d, "patch_ported.diff")) else os.path.join(d, "patch.diff")
         demo = os.path.join(d, "demo_adapted.py") if os.path.exists(os.path.join(d, "demo_adapted.py")) else os.path.join(d, "demo.py")
-        tmp = os.path.join(d, "_verify")
-        shutil.rmtree(tmp, ignore_errors=True)
-        os.makedirs(tmp)
+        import tempfile
+        tmp = tempfile.mkdtemp(prefix="verify_%s_%s_" % (prop, var))
         shutil.copy(patch, os.path.join(tmp, "patch.diff"))
         shutil.copy(demo, os.path.join(tmp, "demo.py"))
         v = sh("/verif/tools/verify_seed.sh %s" % tmp).stdout
